@@ -354,6 +354,16 @@ def pipeline_case(draw):
                 opts=draw(st.sampled_from([[], [], [], ["--noopt"], ["--nodebump"]])), every=draw(st.sampled_from([3, 5, 7])))  # fmt: skip
 
 
+@st.composite
+def window_case(draw):
+    """Windows cut from real structures (with their waters): natural hydroxyl / water networks reach
+    optimiser branches (e.g. hydroxyls that accept but cannot donate) that template chains rarely do."""
+    from .. import e2e
+
+    return dict(part="windows", desc=draw(e2e.window_structure()), ff=draw(st.sampled_from(["AMBER", "PARSE", "CHARMM"])),
+                opts=draw(st.sampled_from([[], [], [], ["--nodebump"]])), every=draw(st.sampled_from([3, 5, 7])))  # fmt: skip
+
+
 def check_pipeline(case):
     from .. import e2e
     from . import c04
@@ -387,6 +397,7 @@ def parts(tier):
         Part("cells", check_cells, machine=machine, budget=dict(quick=1600, thorough=16000),
              machine_steps=dict(quick=40, thorough=60), shrink_key="ops"),  # fmt: skip
         Part("pipeline", check_pipeline, strategy=pipeline_case(), budget=dict(quick=240, thorough=4000)),
+        Part("windows", check_pipeline, strategy=window_case(), budget=dict(quick=160, thorough=3000)),
     ]
 
 
